@@ -133,8 +133,17 @@ def archive_record(text, res, session):
     return r
 
 
+SHARED = {}
+
+
 def export_all(res, session, how='api'):
     out = []
+    # one long-lived exporter of each kind, reused for every result set of the run (a service would do that)
+    if not SHARED:
+        SHARED.update(csv=CSVResultsExporter(), json=JSONResultsExporter(), archive=ResultsArchiveWriter())
+    s = io.StringIO(); SHARED['csv'].export(s, res); out.append(csv_record(s.getvalue(), res))
+    s = io.StringIO(); SHARED['json'].export(s, res); out.append(json_record(s.getvalue(), res))
+    s = io.StringIO(); SHARED['archive'].export(s, res); out.append(archive_record(s.getvalue(), res, session))
     s = io.StringIO(); CSVResultsExporter().export(s, res); out.append(csv_record(s.getvalue(), res))
     s = io.StringIO(); JSONResultsExporter().export(s, res); out.append(json_record(s.getvalue(), res))
     s = io.StringIO(); JSONResultsExporter(pretty=True).export(s, res); out.append(json_record(s.getvalue(), res))
@@ -248,6 +257,4 @@ def run(ctx):
                         'thresholds of the synthetic databases are float32-exact; numeric cells are compared as bit patterns']
 
 
-def replay(ctx, scen):
-    print('C11 records are rebuilt by the check itself; run ./check C11 --tier quick')
-    return True
+replay = core.RERUN
